@@ -816,6 +816,9 @@ def analyse(leaves, N):
         group=np.concatenate(DG),
         group_cap=group_cap,
         total_w=total_w,
+        # without any rejection of the whole sample (only retries inside a branch) the sampler
+        # accepts with probability exactly 1
+        always_accepts=not any(res in ("REJECT", "CUT") for _, _, _, res, _ in leaves),
     )
     return out, stats
 
@@ -865,6 +868,8 @@ def _accumulate_obs(grid, obs):
         outside += o
         A_lo += min(float(obs["m_lo"][sel].sum()), cap)
         A_hi += min(float(obs["m_hi"][sel].sum()), cap)
+    if obs["always_accepts"]:
+        A_lo = A_hi = obs["total_w"]
     return olo, ohi, outside, A_lo, A_hi
 
 
@@ -916,20 +921,19 @@ def _judge(shape, obs, G, q, N):
     if len(shape.operands) == 2:
         ck = shape.carriers()
         atoms = {}
-        for side, C, r, mlo, mhi, ci in (
-            ("exp", quad.C, np.linalg.norm(quad.H, axis=1), np.where(quad.inside, quad.M, 0.0), np.where(quad.inside | quad.boundary, quad.M, 0.0), quad.carrier_index),
-            ("obs", obs["C"], np.linalg.norm(obs["H"], axis=1), obs["m_lo"], obs["m_hi"], None),
+        for side, C, HH, mlo, mhi, ci in (
+            ("exp", quad.C, quad.H, np.where(quad.inside, quad.M, 0.0), np.where(quad.inside | quad.boundary, quad.M, 0.0), quad.carrier_index),
+            ("obs", obs["C"], obs["H"], obs["m_lo"], obs["m_hi"], None),
         ):
+            r = np.linalg.norm(HH, axis=1)
             if ci is None:
-                # observed points: carrier by smallest offset
-                offs = np.stack([K.off(C) for K in ck])
-                ci = offs.argmin(axis=0)
+                ci = M.assign_carrier(ck, C, HH, 1e-7 * grid.scale)
             a = np.zeros(len(C), np.int8)
             b = np.zeros(len(C), np.int8)
             for j, K in enumerate(ck):
                 sel = ci == j
                 if sel.any():
-                    aa, bb = M.atom_of(shape, C[sel], r[sel], K.key)
+                    aa, bb = M.atom_of(shape, C[sel], r[sel], K.key, HH[sel])
                     a[sel], b[sel] = aa, bb
             for name, (va, vb) in (("A-only", (1, 0)), ("B-only", (0, 1)), ("both", (1, 1))):
                 sure = (a == va) & (b == vb)
@@ -964,9 +968,10 @@ def _density(shape, obs, res):
     <= 2 pi / 24 once the radial input is two steps away from the end of its range)."""
     from scipy.spatial import cKDTree
 
-    acc = obs["accepted"]
-    C, E, K, good, W, F = obs["C"][acc], obs["E"][acc], obs["k"][acc], obs["good"][acc], obs["wacc"][acc], obs["f"][acc]
-    Hbox = obs["H"][acc]
+    # all items take part as potential covers: accepted boxes, and rejected boxes next to
+    # accepted ones (their inflated containment box; they may hide accepted mass)
+    C, E, K, good, W, F = obs["C"], obs["E"], obs["k"], obs["good"] & obs["accepted"], obs["wacc"], obs["f"]
+    Hbox = obs["H"]
     out = dict(judged=0, skipped=0, spread=None, bad=None)
     if not good.any():
         return out
@@ -1004,6 +1009,13 @@ def _density(shape, obs, res):
         resid = np.linalg.norm(dx - np.einsum("mi,mij->mj", a, E[cand]), axis=1)
         amax = np.abs(a).max(axis=1)
         on = resid <= 1e-7 * scale
+        # a box of another carrier that merely crosses this one (a surface crossing a plane) does
+        # not add density: the covering box must span the directions of the box under test
+        if on.any() and K[u] < 3:
+            for e in E[u][: K[u]]:
+                ae = np.einsum("mij,j->mi", pinv[cand], e)
+                re = np.linalg.norm(e[None, :] - np.einsum("mi,mij->mj", ae, E[cand]), axis=1)
+                on &= re <= 1e-6 * np.linalg.norm(e)
         inside = on & (amax < 1 - 1e-6)
         edge = on & (amax >= 1 - 1e-6) & (amax <= 1 + 1e-6)
         # boxes without a reliable parallelotope (cut, at the end of an input range, creased):
@@ -1132,9 +1144,9 @@ def run_continuous(item):
         return out
     N, G, q = par["N"][dim], par["G"][dim], par["q"][dim]
     kinds = {type(K).__name__ for K in shape.carriers()}
-    if "Surface" in kinds:
+    if "Surface" in kinds and dim == 2:
         N = par["N_surface"]
-    if any(getattr(pr, "kind", "") == "voxel" for pr in _all_shapes(shape)):
+    if dim == 3 and any(getattr(pr, "kind", "") == "voxel" for pr in _all_shapes(shape)):
         N = par["N_voxel"]
     # many-triangle polygons (and unions containing them): bound the number of executions
     ntri = _triangle_count(region)
@@ -1161,8 +1173,14 @@ def run_continuous(item):
     st["outcomes"] = {k: sum(1 for l in leaves if (l[3] if isinstance(l[3], str) else "POINT") == k) for k in ("POINT", "REJECT", "CUT", "RETRY")}
     pts = np.array([l[3] for l in leaves if isinstance(l[3], tuple)])
     if len(pts) == 0:
+        from scenic.core.vectors import PiecewiseVectorField
+
         if expect_empty:
             st["empty_agree"] = True
+        elif isinstance(getattr(region, "orientation", None), PiecewiseVectorField):
+            # documented: a PiecewiseVectorField rejects points outside its oriented pieces (union
+            # of a polygon without orientation and a polyline with its default orientation)
+            out["excluded"] = "union orientation (PiecewiseVectorField) is undefined on the part of positive measure: every sample is rejected by design"
         else:
             viol(f"never-accepts:{sig}", f"no lattice point produced a sample although the composed set has measure >= {coarse.mu_lo:.4g}")
         return out
@@ -1186,7 +1204,11 @@ def run_continuous(item):
                 detail = "z"
         p = pts[nonm[0]]
         viol(f"nonmember:{sig}:{detail}", f"{len(nonm)} of {len(pts)} produced points are not in the region, e.g. {tuple(round(float(x), 6) for x in p)} (expected z in {zs})" if zs else f"{len(nonm)} of {len(pts)} produced points are not in the region, e.g. {tuple(round(float(x), 6) for x in p)}")
-    own = _own_contains(region, pts[cls == 1], None)
+    # Scenic treats planar operands as footprints (infinite prisms) in containsPoint of a composed
+    # region but as planar sets when sampling: the differential check is only meaningful when
+    # both views coincide
+    planar_in_higher = any(isinstance(pr.carrier, M.Plane) for pr in shape.prims()) and not all(isinstance(K, M.Plane) for K in shape.carriers())
+    own = None if planar_in_higher else _own_contains(region, pts[cls == 1], None)
     st["own_contains_checked"] = 0 if own is None else len(pts[cls == 1][:: max(1, int((cls == 1).sum()) // OWN_CONTAINS_MAX)])
     if own:
         viol(f"own-containsPoint-false:{sig}", f"{len(own)} produced member points are rejected by the region's own containsPoint, e.g. {own[0]}")
@@ -1539,7 +1561,7 @@ def continuous_cases(tier):
     cases.append(("circle@z0.7", _at_z(P["circle"], 0.7)))
     cases.append(("sector@z0.7", _at_z(P["sector"], 0.7)))
     cases.append(("rect@z0.7", _at_z(P["rect"], 0.7)))
-    zin = 0.3  # a height inside the solids
+    zin = 0.3137  # a height inside the solids (no lattice image of a surface falls exactly on it)
     if tier == "quick":
         P = dict(P)
         P["circle"], P["sector"] = _res(P["circle"], 6), _res(P["sector"], 6)
@@ -1554,7 +1576,7 @@ def continuous_cases(tier):
         ("rect|sector", _c("union", P["rect"], P["sector"])),
         ("polygon-circle", _c("difference", P["polygon"], circ1)),
         ("polygon&wide-sector", _c("intersect", PRIMS["polygon"][2], _res(PRIMS["sector"][2], 6))),
-        ("voxel&polyline", _c("intersect", P["voxel"], PRIMS["polyline"][1])),
+        ("voxel&polyline", _c("intersect", P["voxel"], P["polyline"])),
         ("lmesh&circle@z", _c("intersect", P["lmesh"], _at_z(P["circle"], zin))),
         ("box&polyline", _c("intersect", PRIMS["box"][1], P["polyline"])),
         ("spheroid&path", _c("intersect", P["spheroid"], P["path"])),
